@@ -30,6 +30,7 @@ structure RtOpts where
   unsafeIdx : Bool := false
   indirect : Bool := false
   zeroLen : Bool := false
+  packed : Bool := false
   deriving Repr, Inhabited
 
 structure HookCall where
@@ -47,10 +48,10 @@ structure CState where
   log : Array String := #[]
   deriving Repr, Inhabited
 
-def OutTy.cty (u8 : Bool) : OutTy → CTy
+def OutTy.cty (u8 : Bool) (packed : Bool) : OutTy → CTy
   | .bool => CTy.bool
   | .int s b => ⟨s, b⟩
-  | .enum _ => CTy.u32
+  | .enum _ => if packed then CTy.u8 else CTy.u32
   | .str _ _ => if u8 then CTy.u8 else CTy.i8
   | .raw _ => CTy.u8
 
@@ -101,18 +102,20 @@ def CState.str (σ : CState) (i : Nat) : StrBuf := σ.strs.getD i default
 def CState.setStr (σ : CState) (i : Nat) (b : StrBuf) : CState := { σ with strs := σ.strs.setIfInBounds i b }
 
 def RtCtx.env (c : RtCtx) (σ : CState) (inval : Nat) : Env where
-  outVal := fun i => ⟨(c.ty i).cty c.ro.u8, σ.scalars.getD i 0⟩
+  outVal := fun i => ⟨(c.ty i).cty c.ro.u8 c.ro.packed, σ.scalars.getD i 0⟩
   lenVal := fun i => ⟨counterTy (c.ty i), (σ.str i).counter⟩
   size := fun i => (c.ty i).size
   byteAt := fun i k =>
     let b := σ.str i
     match b.alloc with
-    | .null => none
+    | .null =>
+      -- on-demand mode: the bounds-checked index tests the pointer first and reads 0
+      if c.ro.onDemand && c.isDyn i && !c.ro.unsafeIdx then some ⟨CTy.u8, 0⟩ else none
     | .freed => none
     | _ =>
       match b.bytes.getD k none with
       | none => none
-      | some v => some ⟨(c.ty i).cty c.ro.u8, ((c.ty i).cty c.ro.u8).wrap v⟩
+      | some v => some ⟨CTy.u8, v % 256⟩  -- an indexed byte is read as an unsigned byte
   last := ⟨CTy.u8, inval⟩
   unsafeIdx := c.ro.unsafeIdx
 
@@ -148,12 +151,12 @@ def RtCtx.dump (c : RtCtx) (σ : CState) : String :=
         | some v => hex2 v
         | none => "??")
       s!"{d.name}={b.counter}:{body}:-"
-    | t => s!"{d.name}={fmtInt (t.cty c.ro.u8) (σ.scalars.getD i 0)}"
+    | t => s!"{d.name}={fmtInt (t.cty c.ro.u8 c.ro.packed) (σ.scalars.getD i 0)}"
   " ".intercalate parts
 
 /-- `if (!p) p = malloc(size)` of the on-demand mode. -/
 def RtCtx.onDemandAlloc (c : RtCtx) (σ : CState) (i : Nat) : CState :=
-  if c.ro.onDemand && !(c.hasDefault i) && c.isDyn i then
+  if c.ro.onDemand && (!(c.hasDefault i) || c.ro.deleteFrees) && c.isDyn i then
     let b := σ.str i
     if b.alloc == .null then
       σ.setStr i { b with alloc := .heap, bytes := Array.replicate (c.ty i).size none }
@@ -176,7 +179,7 @@ def RtCtx.apply (c : RtCtx) (σ : CState) (isStart : Bool) : AEv → CState
   | .set i e =>
       match eval (c.env σ 0) e with
       | none => σ.addFault "undefined behaviour in expression"
-      | some v => { σ with scalars := σ.scalars.setIfInBounds i (((c.ty i).cty c.ro.u8).wrap v.v) }
+      | some v => { σ with scalars := σ.scalars.setIfInBounds i (((c.ty i).cty c.ro.u8 c.ro.packed).wrap v.v) }
   | .append i byte =>
       let σ := c.onDemandAlloc σ i
       let b := σ.str i
@@ -194,8 +197,8 @@ def RtCtx.apply (c : RtCtx) (σ : CState) (isStart : Bool) : AEv → CState
         if (c.ty i).nullTerm then c.writeByte σ i (b.counter + 1) 0 else σ
   | .setStr i bs =>
       let σ :=
-        if c.ro.onDemand && !(c.hasDefault i) then
-          (if isStart then
+        if c.ro.onDemand && (!(c.hasDefault i) || c.ro.deleteFrees) then
+          (if isStart && !(c.hasDefault i) then
             σ.setStr i { σ.str i with alloc := .heap, bytes := Array.replicate (c.ty i).size none }
            else
             let b := σ.str i
@@ -213,7 +216,9 @@ def RtCtx.apply (c : RtCtx) (σ : CState) (isStart : Bool) : AEv → CState
         let σ := if b.alloc == .freed then σ.addFault "double free" else σ
         σ.setStr i { b with alloc := .null, bytes := #[], counter := 0 }
       else
-        let σ := if (c.ty i).nullTerm then c.writeByte σ i 0 0 else σ
+        -- `if (s) s[0] = 0;` in on-demand mode, `s[0] = 0;` otherwise
+        let skip := c.ro.onDemand && c.isDyn i && (σ.str i).alloc == .null
+        let σ := if (c.ty i).nullTerm && !skip then c.writeByte σ i 0 0 else σ
         σ.setStr i { σ.str i with counter := 0 }
   | .brk => σ
   | .ret _ => σ
@@ -244,7 +249,7 @@ def RtCtx.runTree (c : RtCtx) (isStart : Bool) : CTree → CState → CState × 
       else c.runTree isStart kf (c.applyEv isStart σ (.asked q false))
   | .leaf l, σ => (σ, l)
 
-def RtCtx.semOpts (c : RtCtx) : SemOpts := { strictDone := c.ro.strictDone, substLast := true }
+def RtCtx.semOpts (c : RtCtx) : SemOpts := { strictDone := c.ro.strictDone, substLast := true, canonEmptyStr := false }
 
 def RtCtx.needsEndCheck (c : RtCtx) : Bool :=
   c.ro.zeroLen || c.M.states.any fun s => s.arms.any fun a => a.acts.mayYield
@@ -287,7 +292,7 @@ def RtCtx.start (c : RtCtx) (σ0 : CState) : CState × String :=
     scalars := Array.ofFn (n := n) fun i =>
       let d := c.M.outs.getD i default
       match d.defInt with
-      | some v => (d.ty.cty c.ro.u8).wrap v
+      | some v => (d.ty.cty c.ro.u8 c.ro.packed).wrap v
       | none => σ0.scalars.getD i 0,
     strs := Array.ofFn (n := n) fun i =>
       let d := c.M.outs.getD i default
